@@ -38,6 +38,26 @@ def flagsConds : List (Expr F × List (Stmt F)) → List Bool
   | (_, b) :: rest => flagsBlock b ++ flagsConds rest
 end
 
+mutual
+/-- what the parser guarantees about the body of a function with a return type, apart from
+termination: `break` only inside a loop ("break is not in a loop"), and every `return` carries a
+value (the return type check). `inLoop` says whether the statement is inside a loop of this body. -/
+def fnOkS (inLoop : Bool) : Stmt F → Bool
+  | .brk => inLoop
+  | .ret none => false
+  | .ret (some _) => true
+  | .ifS conds els => fnOkConds inLoop conds && (match els with | some e => fnOkB inLoop e | none => true)
+  | .whileS _ body => fnOkB true body
+  | .forS _ _ _ body => fnOkB true body
+  | _ => true
+def fnOkB (inLoop : Bool) : List (Stmt F) → Bool
+  | [] => true
+  | s :: rest => fnOkS inLoop s && fnOkB inLoop rest
+def fnOkConds (inLoop : Bool) : List (Expr F × List (Stmt F)) → Bool
+  | [] => true
+  | (_, b) :: rest => fnOkB inLoop b && fnOkConds inLoop rest
+end
+
 def flagsProgram (p : Program F) : List Bool :=
   (p.funcs.flatMap (fun f => flagsBlock f.body)) ++ (p.handlers.flatMap (fun h => flagsBlock h.body)) ++ flagsBlock p.stmts
 
